@@ -49,7 +49,10 @@ def run(prop, tier, families_, explanation, assumptions=(), wf_clauses=(), item_
         symbolic_vs_concrete_domain=dict(programs=len(dv), agree=sum(1 for x in dv if x[0] == "agree"), skipped=sum(1 for x in dv if x[0] == "skipped")))
     decided = sum(1 for it in rep.items if it["status"] in ("ok", "violation"))
     rep.coverage.update(programs=total, disagreements_checked=sum(1 for it in rep.items if it["status"] == "violation"),
-                        explanation=explanation, families=per,
+                        explanation=explanation + (f"; plus {per['mixed']} seeded typed random programs that mix all constructs in one body (locals of "
+                                                   "all 8 types, casts, every operator class, ?:, branches, bounded loops, loads/stores, bundled "
+                                                   "sub-routine calls, plugin macros, postfix operators, statement-expressions)" if "mixed" in per else ""),
+                        families=per,
                         rejected_with_exception=sum(1 for r in allrecs if r["verdict"] == "rejected"),
                         bounds=dict(unroll=(item_defaults or {}).get("unroll", 17 if tier == "thorough" else 9),
                                     solver_timeout_ms=(item_defaults or {}).get("timeout_ms", 60000 if tier == "thorough" else 10000),
